@@ -63,7 +63,7 @@ VideoOfN(n) == {[kind |-> "video", ts |-> 1000 * sc, durs |-> DurPat(dp, n, sc),
                  ctos |-> IF ct THEN [i \in 1 .. n |-> sc * (IF i % 2 = 0 THEN 20 ELSE 0)] ELSE <<>>,
                  sync |-> sy, spc |-> ch, sdtp |-> FALSE] :
                    dp \in DurPats, sc \in Scales, ct \in BOOLEAN,
-                   sy \in ({{0}} \cup {S \cup {1} : S \in SUBSET (2 .. n)}), ch \in Chunkings(n)}
+                   sy \in ({{0}, {}} \cup {S \cup {1} : S \in SUBSET (2 .. n)}), ch \in Chunkings(n)}    \* {0}: no stss box; {}: stss box without entries (no sync sample: no end time)
 VideoTracks == UNION {VideoOfN(n) : n \in NVideo}
 AudioOfN(n) == {[kind |-> "audio", ts |-> 500, durs |-> DurPat("const", n, 1), sizes |-> [i \in 1 .. n |-> 2], ctos |-> <<>>,
                  sync |-> {0}, spc |-> ch, sdtp |-> FALSE] : ch \in {<<n>>, Rep(1, n)}}
